@@ -325,7 +325,7 @@ Predict(p) ==
      /\ ~NMatBad(ProcJac(def, e.dt, est.x, e.u)) /\ ~NMatBad(CtrlJac(def, e.dt, est.x, e.u))
      /\ est' = n
      /\ steps' = Append(steps, [act |-> "Predict", dt |-> e.dt, u |-> e.u, x |-> n.x, P |-> n.P])
-     /\ last' = [act |-> "Predict", prior |-> est]
+     /\ last' = [act |-> "Predict", prior |-> est, dt |-> e.dt, u |-> e.u]
   /\ UNCHANGED <<phase, shape, prm, names, skeys, rnames, pts, pool, upd, sens, def, twin>>
 
 \* the reading offered to the filter: prediction + ring offset (rz = -1: exactly the prediction)
@@ -518,6 +518,19 @@ InvRescale ==
          z2 == [last.z EXCEPT ![r0] = RMul(RI(4), @)]
          K2 == Kalman(d2, key, last.prior, z2) IN
      (IsBad(z2[r0]) \/ NVecBad(K2.x) \/ NMatBad(K2.P) \/ NMatBad(K2.S)) \/ (K2.x = est.x /\ K2.P = est.P)
+\* C04 (spec level): a control input measured in other units changes nothing.  With u0 = c * u0' the update expressions read
+\* c * u0' wherever they read u0, the control Jacobian column grows by c and the noise variance of u0' is M/c^2: V M V^T is the same.
+\* TLC checks it exactly with c = 4; the replay harness uses c = 2^20, which takes the variance down to ~1e-12 -- noise
+\* magnitudes the exact window cannot hold.
+ScaleControl(d, c0, c) ==
+  [d EXCEPT !.update = [s \in DOMAIN d.update |-> ScaleSym(d.update[s], c0, c)], !.pnoise[c0] = RDiv(@, RI(c * c))]
+InvRescaleControl ==
+  (last # <<>> /\ last.act = "Predict" /\ CtrlOf # {}) =>
+     LET c0 == Ord(CtrlOf)[1]
+         d2 == ScaleControl(def, c0, 4)
+         u2 == [last.u EXCEPT ![c0] = RDiv(@, RI(4))]
+         n2 == PredictF(d2, last.dt, last.prior, u2) IN
+     (IsBad(u2[c0]) \/ NVecBad(n2.x) \/ NMatBad(n2.P)) \/ (n2.x = est.x /\ n2.P = est.P)
 \* C06: a discard changes nothing; with filtering disabled nothing is discarded
 InvReject ==
   (last # <<>> /\ last.act = "Update" /\ last.outcome = "rejected") =>
